@@ -1,6 +1,7 @@
 """C11 - every call and every document stands alone (effect / reset clauses)."""
 import sys
 
+from sa import rules_r6b as R6B
 from sa import report, effects as E, rules_state as RS, rules_registry as RR
 from sa import rules_extra as RX
 
@@ -28,6 +29,11 @@ def run(ctx, repo):
     ctx.call(RX.r_emitter_doc_reset, repo)
     ctx.call(RX.r_no_process_state, repo)
     ctx.call(RX.r_no_memo, repo)
+    ctx.call(R6B.r_grown_state_reset, repo, ['emitter.Emitter', 'serializer.Serializer', 'representer.BaseRepresenter', 'composer.Composer', 'constructor.BaseConstructor', 'parser.Parser', 'scanner.Scanner', 'resolver.BaseResolver'])
+    ctx.call(R6B.r_instance_writes_class, repo, ['reader', 'scanner', 'parser', 'composer', 'constructor', 'resolver', 'emitter', 'serializer', 'representer'])
+    ctx.call(R6B.r_no_module_state, repo)
+    ctx.call(R6B.r_option_immutable, repo, ['emitter.Emitter', 'serializer.Serializer', 'representer.BaseRepresenter'])
+
 
 if __name__ == '__main__':
     sys.exit(report.main('C11', 'other', run))
